@@ -495,7 +495,40 @@ def bracket_offset(ctx, rep, clause="S5"):
     rep.put(ok, clause, "agreement", "bracket offset: skip_rungs = bracket_id when all brackets share one rung system", g3, None, "")
 
 
+def s5d(ctx, rep, clause="S5"):
+    """the bracket a trial is judged in is the bracket it was added to: on_task_add records trial -> bracket on every path and
+    hands the trial to the rung system of that same bracket; on_task_remove forgets the record when the trial leaves"""
+    P = ctx.P
+    f = P.method("HyperbandBracketManager", "on_task_add")
+    cfg = cfg_of(f)
+    tid = f.params[1]
+    stores = [n for n in cfg.nodes if n.kind == "stmt" and isinstance(n.ast, ast.Assign) and any(
+        isinstance(t, ast.Subscript) and U(t.value) == "self._task_info" and U(t.slice) == tid for t in n.ast.targets)]
+    ok = len(stores) == 1 and cfg.path([cfg.entry], cfg.exit, deleted={stores[0].id}, skip_labels=("exc",)) is None
+    bv = U(stores[0].ast.value) if stores else "?"
+    from ..engine import deref
+    src = deref(f, stores[0].ast.value) if stores else None
+    ok = ok and src is not None and isinstance(src, ast.Subscript) and U(src.slice) == "'bracket'"
+    rep.put(ok, clause, "must_follow", "HyperbandBracketManager.on_task_add records trial -> bracket (the bracket it was started in) on every path", f,
+            stores[0].ast if stores else None, "", "a running trial has no (or another) bracket on record: its reports are judged with another bracket's rung levels "
+            "(KeyError at its first report, or decisions at levels that are not its milestones)")
+    sysc = [x for x in walk_shallow(f.node) if isinstance(x, ast.Assign) and isinstance(x.value, ast.Call) and fn_name(x.value) == "_get_rung_system_for_bracket_id"]
+    oks = len(sysc) == 1 and argn(sysc[0].value, 0) is not None and (
+        U(deref(f, argn(sysc[0].value, 0))) in (U(src), f"self._task_info[{tid}]") or U(argn(sysc[0].value, 0)) == bv) if src is not None else False
+    adds = [x for x in walk_shallow(f.node) if isinstance(x, ast.Call) and fn_name(x) == "on_task_add"]
+    oka = len(adds) == 1 and isinstance(sysc[0].targets[0], ast.Tuple) and U(adds[0].func.value) == U(sysc[0].targets[0].elts[0]) and \
+        kwarg(adds[0], "skip_rungs", 1) is not None and U(kwarg(adds[0], "skip_rungs", 1)) == U(sysc[0].targets[0].elts[1]) if oks and adds else False
+    rep.put(bool(oks) and bool(oka), clause, "agreement", "HyperbandBracketManager.on_task_add: the trial is added to the rung system (and skip count) of that bracket", f,
+            adds[0] if adds else None, "")
+    g = P.method("HyperbandBracketManager", "on_task_remove")
+    dels = [x for x in walk_shallow(g.node) if isinstance(x, ast.Delete) and any(isinstance(t, ast.Subscript) and U(t.value) == "self._task_info" for t in x.targets)] + \
+           [x for x in walk_shallow(g.node) if isinstance(x, ast.Call) and fn_name(x) == "pop" and U(x.func.value) == "self._task_info"]
+    rep.put(bool(dels), clause, "agreement", "HyperbandBracketManager.on_task_remove forgets the trial's bracket", g, None, "",
+            "a finished trial keeps its bracket record: when it is resumed it is still judged in the old bracket")
+
+
 def run(ctx, rep, tier="quick"):
+    s5d(ctx, rep)
     s1(ctx, rep)
     s2(ctx, rep)
     s3(ctx, rep)
